@@ -223,3 +223,10 @@ for _pid in ("C05", "C08", "C13"):
 # C09-g (negative stored lifetime + 304: unbounded re-entry): witness / regression stream on sysc's machinery
 for _pid in ("C05", "C09", "C13"):
     PROPS[_pid]["streams"] += [S("kf.C09-g", 3, 3, 1)]
+
+# C02 at system level (stream sysu): what the selected destination is asked for
+p = _ensure("C02", "Destination URL = rule destination + wildcard capture; query kept verbatim")
+p["streams"] += [S("sysu", 3000, 40000)]
+p["trivial_labels"] = list(p.get("trivial_labels", [])) + ["outside-S1:flag", "rules-rejected"]
+p["rule"] += _SYS_RULE + "; oracle C02 on the request-target the selected destination received (raw client -> net/http -> completeURL -> Rules.Match -> createOutgoingURLs -> NewRequest): it is UrlEsc.requestURI of the rule's destination with the capture taken from the request-target AS SENT (escaped spellings that decode to clean paths: %2F, %41, %3A, %40, sub-delims, bare '?'), query verbatim (class C02-a excluded); requests with and without any Connection header"
+p["trusted_base"] += _SYS_TB
